@@ -13,7 +13,9 @@ ASSUMPTIONS = ["time.Ticker / time.Timer deliver at most one buffered value and 
 
 
 def corpus():
-    return ["raterun.stop inflight 5 40 10", "raterun.stop due 5 40 10", "raterun.stop idle 5 40 10",
+    return [
+        "result.stress 800",            # C18k: the progress function (Progress, HasDroppedIterations) against the run loop's writers: nobody waits forever
+        "raterun.stop inflight 5 40 10", "raterun.stop due 5 40 10", "raterun.stop idle 5 40 10",
             "raterun.stop cancel 5 40 10", "raterun.switch 10 60 30 0", "raterun.switch 10 60 30 1",
             "raterun.count 10 120", "raterun.newstart 350 100 400", "raterun.newstart 150 50 300",
             # the runner's user: an interrupted run must still wait for a progress tick that is being reported
